@@ -124,7 +124,7 @@ func (c *Checker) Guided(src *Source, parser *ssa.Function, it string, root stri
 	ip := c.IP
 	o := &oracle{c: c, src: src, it: it, assumed: map[string]bool{}}
 	savedO, savedL, savedI, savedP := ip.Oracle, ip.LinOfBits, ip.InlineCalls, ip.MaxPaths
-	ip.Oracle, ip.LinOfBits, ip.InlineCalls, ip.MaxPaths = o, o.linOfBits, true, 5000
+	ip.Oracle, ip.LinOfBits, ip.InlineCalls, ip.MaxPaths = o, o.linOfBits, true, 400
 	defer func() { ip.Oracle, ip.LinOfBits, ip.InlineCalls, ip.MaxPaths = savedO, savedL, savedI, savedP }()
 	var rt types.Type
 	if r := parser.Signature.Results(); r.Len() > 0 {
@@ -140,6 +140,11 @@ func (c *Checker) Guided(src *Source, parser *ssa.Function, it string, root stri
 			st.Preds[k] = v
 		}
 		st.SetMem(it+".#cur", pathint.IntVal(lin.Const(opts.Start)))
+		for name, f := range opts.Params {
+			if !st.BindParam(parser, name, pathint.IntVal(f)) {
+				res.Problems = append(res.Problems, "parser has no parameter "+name)
+			}
+		}
 		st.SetMem(it+".#len", pathint.IntVal(lin.Sym(ln)))
 		if src.TotalOK {
 			if div8(src.Total) {
